@@ -119,8 +119,13 @@ fn on_wire(t: &T2, sid: u32) -> bool {
 
 /// What may a connection still remember once every stream has closed both ways and every handle is gone?
 pub fn leak_checks(s: &h2::verif::StreamsSnapshot, expire_now: bool, n_streams: usize, v: &mut V3) {
+    leak_checks_n(s, expire_now, n_streams, 2, v)
+}
+
+/// `quota` = the configured bound on remembered local resets
+pub fn leak_checks_n(s: &h2::verif::StreamsSnapshot, expire_now: bool, n_streams: usize, quota: usize, v: &mut V3) {
         let remembered: Vec<&String> = s.streams.iter().collect();
-        let max_remembered = if expire_now { 0 } else { 2 };
+        let max_remembered = if expire_now { 0 } else { quota };
         if remembered.len() > max_remembered {
             v.push((
                 "C19.stream-record-retained".to_string(),
@@ -1067,6 +1072,147 @@ impl Model for PushLife {
     }
 }
 
+// ---------------------------------------------------------------------------------------------
+// T1 half: real client <-> real server under every schedule / chunking with <= k deviations; at quiescence both stream stores
+// are read through the snapshot hook, then the client's last request handle goes
+
+use crate::c01::{run_t1_property, full_policy, T1Harness};
+use crate::scen::{Cancel, Cfg, EndKind, MsgSpec, RecvMode, Scenario, StreamSpec, T1};
+
+pub fn c19_t1_scenarios(quick: bool) -> Vec<Scenario> {
+    let m = |c: &[usize]| MsgSpec::simple(c);
+    let mk = |name: &str, cfg: Cfg, streams: Vec<StreamSpec>| Scenario { name: name.to_string(), cfg: Cfg { probe: true, ..cfg }, streams };
+    let mut v = vec![
+        mk("get-small", Cfg::default(), vec![StreamSpec::new(m(&[]), m(&[5]))]),
+        mk("post-trailers", Cfg::default(), vec![StreamSpec::new(MsgSpec { end: EndKind::Trailers, ..m(&[3, 4]) }, MsgSpec { end: EndKind::Trailers, ..m(&[7]) })]),
+        mk("client-reset", Cfg::default(), vec![StreamSpec { cancel: Cancel::ClientReset { after_chunks: 1, code: 8 }, ..StreamSpec::new(m(&[5, 5]), m(&[4])) }, StreamSpec::new(m(&[2]), m(&[2]))]),
+        mk("client-reset-expire-now", Cfg { reset_expire_now: true, ..Cfg::default() }, vec![StreamSpec { cancel: Cancel::ClientReset { after_chunks: 1, code: 8 }, ..StreamSpec::new(m(&[5, 5]), m(&[4])) }]),
+        mk("server-reset", Cfg::default(), vec![StreamSpec { cancel: Cancel::ServerReset { after_chunks: 1, code: 2 }, ..StreamSpec::new(m(&[3]), m(&[5, 5])) }]),
+        mk("client-drop", Cfg::default(), vec![StreamSpec { cancel: Cancel::ClientDrop { after_chunks: 0 }, ..StreamSpec::new(m(&[5, 5]), m(&[4])) }, StreamSpec::new(m(&[2]), m(&[2]))]),
+        mk("server-drop", Cfg::default(), vec![StreamSpec { cancel: Cancel::ServerDrop, ..StreamSpec::new(m(&[5]), m(&[5])) }]),
+        mk("early-response-blocked", Cfg { c_stream_window: Some(7), s_stream_window: Some(7), ..Cfg::default() }, vec![StreamSpec { cancel: Cancel::ServerEarlyResponse, c_recv: RecvMode::Late, ..StreamSpec::new(m(&[5, 5]), m(&[20])) }]),
+        mk("push", Cfg::default(), vec![StreamSpec { push: Some(m(&[6])), ..StreamSpec::new(m(&[]), m(&[2])) }]),
+        mk("push-client-drop", Cfg::default(), vec![StreamSpec { push: Some(m(&[6])), cancel: Cancel::ClientDrop { after_chunks: 0 }, ..StreamSpec::new(m(&[3]), m(&[2])) }]),
+        mk("window7-late", Cfg { c_stream_window: Some(7), s_stream_window: Some(7), ..Cfg::default() }, vec![StreamSpec { c_recv: RecvMode::Late, s_recv: RecvMode::Late, ..StreamSpec::new(m(&[20]), m(&[20])) }]),
+        mk("max-concurrent-1", Cfg { s_max_concurrent: Some(1), c_initial_max_send_streams: Some(1), ..Cfg::default() }, vec![StreamSpec::new(m(&[3]), m(&[3])), StreamSpec { cancel: Cancel::ClientReset { after_chunks: 0, code: 8 }, ..StreamSpec::new(m(&[4]), m(&[4])) }]),
+    ];
+    if !quick {
+        v.push(mk("server-reset-expire-now", Cfg { reset_expire_now: true, ..Cfg::default() }, vec![StreamSpec { cancel: Cancel::ServerReset { after_chunks: 1, code: 2 }, ..StreamSpec::new(m(&[3]), m(&[5, 5])) }]));
+        v.push(mk("body-20k", Cfg::default(), vec![StreamSpec::new(m(&[20_000]), m(&[20_000]))]));
+    }
+    v
+}
+
+fn judge_c19_t1(h: &T1Harness, t: &mut T1, end: RunEnd) -> V3 {
+    let mut v: V3 = vec![];
+    if end != RunEnd::Quiescent {
+        return v; // livelock / horizon is C06's business
+    }
+    t.sh.lock().unwrap().chooser.recording = false;
+    // every application task has finished? (a stuck task is C06's finding; what it still holds is not a leak)
+    let stuck: Vec<String> = t.exec.tasks.iter().filter(|x| x.fut.is_some() && x.name != "connC" && x.name != "connS").map(|x| x.name.clone()).collect();
+    if !stuck.is_empty() {
+        return v;
+    }
+    // both connection tasks run once more so that their snapshots show the quiescent state (and expired resets are gone)
+    if h.sc.cfg.reset_expire_now {
+        std::thread::sleep(std::time::Duration::from_micros(30));
+    }
+    t.sh.lock().unwrap().want_snaps = true;
+    for name in ["connC", "connS"] {
+        if let Some(i) = t.exec.tasks.iter().position(|x| x.name == name && x.fut.is_some()) {
+            t.exec.force_poll(i);
+            t.exec.run(2000);
+        }
+    }
+    let (cs, ss) = {
+        let s = t.sh.lock().unwrap();
+        (s.snaps[0].clone(), s.snaps[1].clone())
+    };
+    let conn_ended = |t: &T1, side: Side| t.log.snapshot().iter().any(|r| r.side == side && r.k == usize::MAX && matches!(&r.ev, crate::scen::Ev::Err(e) if e.starts_with("conn:")));
+    let n = h.sc.streams.iter().map(|s| 1 + s.push.is_some() as usize).sum::<usize>();
+    // 10 = h2's default bound on remembered local resets
+    for (side, snap) in [(Side::Client, cs), (Side::Server, ss)] {
+        if conn_ended(t, side) {
+            continue;
+        }
+        if let Some(s) = snap {
+            let mut x: V3 = vec![];
+            leak_checks_n(&s, h.sc.cfg.reset_expire_now, n, 10, &mut x);
+            for (r, sig, what) in x {
+                v.push((r, format!("{}:{}", side.name(), sig), format!("{} at quiescence: {}", side.name(), what)));
+            }
+        }
+    }
+    // the last request handle goes: GOAWAY(NO_ERROR), transport shut down, both connections complete successfully
+    if conn_ended(t, Side::Client) || conn_ended(t, Side::Server) {
+        return v;
+    }
+    let keeper = t.sh.lock().unwrap().keeper.take();
+    drop(keeper);
+    t.exec.run(5000);
+    t.mon.catch_up(&t.sh.lock().unwrap().iolog);
+    let log = t.log.snapshot();
+    let result = |side: Side| log.iter().find_map(|r| if r.side == side && r.k == usize::MAX { if let crate::scen::Ev::Err(e) = &r.ev { if e.starts_with("conn:") { return Some(e.clone()); } } None } else { None });
+    let goaway = t.mon.frames_of(Side::Client).find_map(|f| if let Ok(Parsed::GoAway { code, .. }) = &f.parsed { Some(*code) } else { None });
+    match result(Side::Client).as_deref() {
+        Some("conn: ok") => {
+            if goaway != Some(0) {
+                v.push(("C19.idle-close".into(), "no-goaway".into(), format!("the idle client connection completed without GOAWAY(NO_ERROR) (GOAWAY code seen: {:?})", goaway)));
+            }
+        }
+        other => v.push(("C19.idle-close".into(), "not-closed".into(), format!("every stream has finished and the last SendRequest is dropped, but the client connection future has not completed successfully: {:?}", other))),
+    }
+    if let Some(r) = result(Side::Server) {
+        if r != "conn: ok" {
+            v.push(("C19.idle-close".into(), "server".into(), format!("after the client's idle close the server connection ended with {:?}", r)));
+        }
+    }
+    v
+}
+
+pub fn run_t1_half(ctx: &Ctx) -> Outcome {
+    let scs = c19_t1_scenarios(ctx.tier.is_quick());
+    let mut out = run_t1_property(ctx, "C19", &scs, judge_c19_t1, if ctx.tier.is_quick() { 2 } else { 3 }, full_policy(), &[]);
+    if let Some(hs) = out.coverage.get_mut("harnesses").and_then(|v| v.as_object_mut()) {
+        if let Some(x) = hs.remove("t1-scenarios") {
+            hs.insert("t1-scenarios (client <-> server, snapshot at quiescence, then idle close)".into(), x);
+        }
+    }
+    // the generated scenario set (covering array over 13 dimensions + boundary families) with the same probe and judge, one
+    // deviation (thorough: two)
+    let mut gen: Vec<Scenario> = crate::gen::generated(if ctx.tier.is_quick() { 2 } else { 3 });
+    gen.extend(crate::gen::boundary_scenarios(ctx.tier.is_quick()));
+    for s in gen.iter_mut() {
+        s.cfg.probe = true;
+    }
+    let mut g = run_t1_property(ctx, "C19", &gen, judge_c19_t1, if ctx.tier.is_quick() { 1 } else { 2 }, full_policy(), &[]);
+    if let Some(hs) = g.coverage.get_mut("harnesses").and_then(|v| v.as_object_mut()) {
+        if let Some(x) = hs.remove("t1-scenarios") {
+            hs.insert("t1-generated-scenarios (same probe and judge)".into(), x);
+        }
+    }
+    out.absorb(g);
+    out
+}
+
+pub fn replay_t1(v: &serde_json::Value) -> bool {
+    let mut scs = c19_t1_scenarios(false);
+    let mut gen: Vec<Scenario> = crate::gen::generated(3);
+    gen.extend(crate::gen::generated(2));
+    gen.extend(crate::gen::boundary_scenarios(false));
+    for s in gen.iter_mut() {
+        s.cfg.probe = true;
+    }
+    scs.extend(gen);
+    let name = v["scenario_name"].as_str().unwrap_or("");
+    let mut v2 = v.clone();
+    if let Some(i) = scs.iter().position(|s| s.name == name) {
+        v2["scenario"] = json!(i);
+    }
+    crate::c01::replay(&v2, &scs, "C19", judge_c19_t1, full_policy())
+}
+
 pub fn run(ctx: &Ctx) -> Outcome {
     let mut out = Outcome::default();
     let quick = ctx.tier.is_quick();
@@ -1105,6 +1251,8 @@ pub fn run(ctx: &Ctx) -> Outcome {
     vs.merge(r8.agg.vios);
     out.violations = vs.into_vec();
     out.guard_nonzero("client resets", out.coverage.get("mechanism_counters").and_then(|m| m.get("client_resets")).and_then(|v| v.as_u64()).unwrap_or(0));
+    let t1 = run_t1_half(ctx);
+    out.absorb(t1);
     out
 }
 
